@@ -21,7 +21,7 @@ RULE = (
     "a state is (model, config, number of steps simulated so far, checkpoint variant); transitions are integrate calls"
 )
 REQUIRED_COVER = ["non_default_delta_t", "overlap_sample", "state_reads_current", "first_part_is_1", "last_part_is_1", "all_ones", "prod_gt_steps_with_return_states", "exact_factorisation",
-                  "manual_stepper", "clamp", "synapse_model", "synaptic_state_clamped_on_second_type", "no_external_inputs", "fwd_euler"]
+                  "manual_stepper", "clamp", "synapse_model", "synaptic_state_clamped_on_second_type", "no_external_inputs", "callers_states_compared_after_one_step_run", "fwd_euler"]
 ASSUMPTIONS = [
     "tolerance 1e-8 relative: programs of different scan length / checkpoint layout are fused differently and round-off (1e-16) is amplified by up to 1e6 through an action-potential upstroke at dt = 0.05; a wrong state, input slice or time step is off by >= 1e-4",
     "runs are 4-5 steps long; longer runs are not explored",
@@ -187,6 +187,8 @@ def run_config(model_name, scheme, backend, n, variants, comps=None, dt=0.025):
                 continue
             pieces, pieces_full, st, lo, ok = [], [], None, 0, True
             for j, k in enumerate(comp):
+                st_in = st
+                st_in_copy = None if st is None else {kk: np.array(vv) for kk, vv in st.items()}
                 try:
                     rec, st = _integrate(m, model_name, lo, lo + k, n, scheme, backend, _ckpt(k, variant), st, dt)
                 except Exception as e:
@@ -194,6 +196,15 @@ def run_config(model_name, scheme, backend, n, variants, comps=None, dt=0.025):
                     ok = False
                     break
                 out["transitions"] += 1
+                if st_in is not None:
+                    # the states a run is continued from belong to the caller (they may be continued from again): untouched
+                    out["cover"].append("callers_states_compared")
+                    if k == 1:
+                        out["cover"].append("callers_states_compared_after_one_step_run")
+                    changed = [kk for kk in st_in_copy if kk not in st_in or not np.array_equal(np.asarray(st_in[kk]), st_in_copy[kk], equal_nan=True)]
+                    if changed or set(st_in) != set(st_in_copy):
+                        viol("integrate_modifies_callers_states", variant, comp,
+                             f"segment {j} ({k} steps): the all_states dict passed in was changed at {sorted(changed)[:5]}")
                 if j > 0:
                     # the first returned column of a continued run is the state it was started from = last column of the previous run
                     prev_last = pieces_full[-1][:, -1]
